@@ -187,8 +187,9 @@ struct McInfo {
     decl: usize,
     name: String,
     targs: Vec<(String, Ty, bool, usize)>,
-    /// class of the record the multiclass defines under the name of the instantiating defm
-    self_def: Option<String>,
+    /// the records an instantiation defines: (name relative to the defm's name, class); `def "" : K`
+    /// is ("", K), `def _d : K` is ("_d", K), an inner `defm _m : M2` contributes "_m" + each of M2's
+    records: Vec<(String, Option<String>)>,
 }
 
 #[derive(Clone, Debug)]
@@ -235,6 +236,8 @@ pub struct Sem<'a> {
     /// differs between TableGen versions)
     hidden: Vec<String>,
     uninit: std::collections::BTreeSet<usize>,
+    /// records defined by the defs of the multiclass body being written (relative name, class)
+    mc_records: Vec<(String, Option<String>)>,
     /// inherited field declarations that some record declared again
     redeclared: std::collections::BTreeSet<usize>,
     wrote_unset: bool,
@@ -290,6 +293,7 @@ impl<'a> Sem<'a> {
             hidden: Vec::new(),
             uninit: Default::default(),
             redeclared: Default::default(),
+            mc_records: Vec::new(),
             wrote_unset: false,
             mc_depth: 0,
             untyped_uses: 0,
@@ -321,6 +325,11 @@ impl<'a> Sem<'a> {
         self.w(name);
         let r = (s, self.here());
         if let Role::Use(d) = &role {
+            // a record a defm has defined under a composed name (`SLLI` of `defm SLL`): the name is a
+            // value, but no identifier anywhere declares it - nothing to go to, no occurrence
+            if self.p.decls[*d].kind == DeclKind::Defm && self.p.decls[*d].name != name {
+                return r;
+            }
             if self.p.decls[*d].file != self.cur {
                 self.p.feat.cross_file_use = true;
             }
@@ -1766,6 +1775,9 @@ impl<'a> Sem<'a> {
         self.rec_base = saved_base;
         self.rec_targs = saved_t;
         self.rec_fields = saved_f;
+        if in_multiclass && !pasted {
+            self.mc_records.push((name.clone(), parents.first().cloned()));
+        }
         if !in_multiclass && !pasted {
             self.defs.push(DefInfo { decl, name, class: parents.first().cloned(), via_defm: false });
         }
@@ -2206,14 +2218,15 @@ impl<'a> Sem<'a> {
             self.p.feat.multiclass_without_targs = true;
         }
         // parent multiclasses
-        let mut self_def: Option<String> = None;
+        let mut records: Vec<(String, Option<String>)> = Vec::new();
+        let saved_mc_records = std::mem::take(&mut self.mc_records);
         if !self.mcs.is_empty() && self.rng.chance(1, 3) && self.on("multiclass-parent") {
             let m = self.mcs[self.rng.below(self.mcs.len())].clone();
             self.w(" : ");
             let st = self.here();
             self.mc_ref(&m);
             self.span("multiclass-parent", st);
-            self_def = m.self_def.clone();
+            records = m.records.clone();
         }
         self.w(" {");
         self.indent += 1;
@@ -2226,7 +2239,7 @@ impl<'a> Sem<'a> {
             self.nl();
             match self.rng.below(6) {
                 0 => self.defvar_stmt(),
-                4 if self_def.is_none() && self.rng.chance(1, 2) && self.on("defm-record-value") => {
+                4 if !records.iter().any(|r| r.0.is_empty()) && self.rng.chance(1, 2) && self.on("defm-record-value") => {
                     // `def "" : K<…>;` - the record is called like the defm that instantiates the multiclass
                     let start = self.stmt_begin();
                     let c = self.classes[self.rng.below(self.classes.len())].name.clone();
@@ -2235,13 +2248,14 @@ impl<'a> Sem<'a> {
                     self.w(";");
                     let ds = self.in_defset;
                     self.stmt_end("Def", start, None, false, ds);
-                    self_def = Some(c);
+                    records.push((String::new(), Some(c)));
                 }
                 5 if self.on("def-name-paste") => {
                     // a record named after the defm that instantiates the multiclass: no name of its own
                     let start = self.stmt_begin();
                     let tail = self.fresh("p");
                     self.w(&format!("def NAME#\"_{tail}\";"));
+                    records.push((format!("_{tail}"), None));
                     let ds = self.in_defset;
                     self.stmt_end("Def", start, None, false, ds);
                 }
@@ -2253,6 +2267,10 @@ impl<'a> Sem<'a> {
                     self.w(" : ");
                     self.mc_ref(&m);
                     self.w(";");
+                    // (a record called like the instantiating defm may be defined once only)
+                    for (rn, rc) in &m.records {
+                        records.push((format!("{dn}{rn}"), rc.clone()));
+                    }
                 }
                 _ => self.def_stmt("_", true),
             }
@@ -2270,7 +2288,8 @@ impl<'a> Sem<'a> {
         self.indent -= 1;
         self.nl();
         self.w("}");
-        self.mcs.push(McInfo { decl, name, targs, self_def });
+        records.extend(std::mem::replace(&mut self.mc_records, saved_mc_records));
+        self.mcs.push(McInfo { decl, name, targs, records });
         self.stmt_end("MultiClass", start, Some(decl), true, None);
     }
 
@@ -2319,23 +2338,30 @@ impl<'a> Sem<'a> {
         let defm_decl = self.declare(DeclKind::Defm, &dn, None, None, None);
         self.w(" : ");
         self.mc_ref(&m);
+        let mut second: Option<McInfo> = None;
         if self.mcs.len() >= 2 && self.rng.chance(1, 3) {
             let m2 = self.mcs[self.rng.below(self.mcs.len())].clone();
             // (two multiclasses that both define a record called like the defm would define it twice)
-            if m2.name != m.name && m2.self_def.is_none() {
+            if m2.name != m.name && !m2.records.iter().any(|r| m.records.iter().any(|q| q.0 == r.0)) {
                 self.w(", ");
                 self.mc_ref(&m2);
+                second = Some(m2);
             }
-        }
-        if let Some(c) = &m.self_def {
-            // from here on the name of the defm is a value: the record of class `c` it has defined
-            self.defs.push(DefInfo { decl: defm_decl, name: dn.clone(), class: Some(c.clone()), via_defm: true });
         }
         if let Some(c) = extra {
             self.w(", ");
             let st = self.here();
             self.class_ref(&c.name, 1, false);
             self.span("defm-class-parent", st);
+        }
+        // from here on the records the defm has defined are values: its name followed by what each is
+        // called in the multiclass (`defm SLL : M` with `def I : K` in M defines SLLI, a K)
+        if self.on("defm-record-value") {
+            for (rn, rc) in m.records.iter().chain(second.iter().flat_map(|x| x.records.iter())) {
+                if let Some(c) = rc {
+                    self.defs.push(DefInfo { decl: defm_decl, name: format!("{dn}{rn}"), class: Some(c.clone()), via_defm: true });
+                }
+            }
         }
         self.w(";");
     }
